@@ -136,6 +136,10 @@ def gen_case(rng, size=1.0):
                 else:
                     d = g * rng.randint(1, max(1, min(maxd, 2 * max(1, (bounds[min(mi + 1, nmeas - 1) + 1] - ms) // g))))
                 d = min(d, end - on)
+                # the line codec (C07) holds fractions with numerator and denominator <= 1024 exactly; longer
+                # durations are approximated by it (known finding C08-K2, exercised by K2_CASE), not generated
+                while d > g and Fraction(d, 4 * divs).numerator > 1024:
+                    d -= g
                 # split at barlines (tied chain), sometimes an extra tie inside the bar
                 cuts = [b for b in bounds if on < b < on + d]
                 if not cuts and d >= 2 * g and rng.random() < 0.1:
@@ -568,6 +572,10 @@ def oracle(case, obs, score=True):
         bad.append(("alignment", "alignment differs: missing %s extra %s (%d vs %d entries)" % (miss, extra, len(exp), len(got))))
     # O2 performance
     P = obs["perf"]
+    loaded_pids = {n["id"] for n in P["notes"]}
+    stray = [a for a in obs["alignment"] if a.get("performance_id") is not None and a["performance_id"] not in loaded_pids]
+    if stray:
+        bad.append(("alignment_ids", "alignment entries name performed notes that are not in the loaded performance: %s" % stray[:3]))
     if P["ppq"] != case["ppq"] or P["mpq"] != case["mpq"]:
         bad.append(("clock", "loaded performed part has ppq=%s mpq=%s, written with ppq=%s mpq=%s" % (P["ppq"], P["mpq"], case["ppq"], case["mpq"])))
     tick = Fraction(case["mpq"], 10 ** 6 * case["ppq"])
@@ -623,6 +631,9 @@ def oracle(case, obs, score=True):
         return bad
     # O3 score
     O, L = obs["orig"], obs["loaded"]
+    stray = [a for a in obs["alignment"] if a.get("score_id") is not None and a["score_id"] not in L["notes"]]
+    if stray:
+        bad.append(("alignment_ids", "alignment entries name score notes that are not in the loaded score: %s" % stray[:3]))
     if len(L["quarter_durations"]) != 1:
         bad.append(("score_divs", "loaded part has quarter durations %s" % L["quarter_durations"]))
     on = dict(O["notes"])
@@ -962,6 +973,61 @@ def k1_matcher(replay_obj):
     return len(m) == 0
 
 
+def big_fraction_notes(case):
+    """ids of score notes whose duration in whole notes, reduced, has a numerator or denominator above 1024"""
+    out = set()
+    for n in case.get("notes", []):
+        f = Fraction(n["dur"], 4 * case["divs"])
+        if f.numerator > 1024 or f.denominator > 1024:
+            out.add(n["id"])
+    return out
+
+
+def k2_matcher(replay_obj):
+    """C08-K2: every reported message is the duration of a note whose whole-note fraction exceeds the codec's bound"""
+    import re
+    if not isinstance(replay_obj, dict) or replay_obj.get("clause") != "score_duration_beat" or replay_obj.get("status") != "ok":
+        return False
+    big = big_fraction_notes(replay_obj.get("case") or {})
+    msgs = replay_obj.get("all") or [replay_obj.get("message", "")]
+    ids = [re.search(r"note (\S+) duration_beat = ", m) for m in msgs]
+    return bool(big) and bool(msgs) and all(m is not None and m.group(1) in big for m in ids)
+
+
+# one note of 11030/1920 = 1103/192 whole notes (tied over three barlines) in 4/4, divisions 480
+K2_CASE = dict(
+    divs=480, grid=10, tsigs=[[0, 4, 4]], ksigs=[[0, 0, "major"]], bounds=[0, 1920, 3840, 5760, 7680, 9600, 11520, 13440], pickup=0,
+    notes=[dict(id="n0", step="C", alter=0, octave=4, on=0, dur=11030, voice=1, staff=1, grace=False, arts=[], tie=[1920, 3840, 5760, 7680, 9600])]
+    + [dict(id="n%d" % k, step="E", alter=0, octave=5, on=1920 * k, dur=480, voice=2, staff=1, grace=False, arts=[], tie=[]) for k in range(1, 7)],
+    pnotes=[dict(id="n%d" % k, pitch=60 + k, on=str(Fraction(k, 2)), off=str(Fraction(k, 2) + Fraction(1, 4)), vel=64) for k in range(7)],
+    alignment=[dict(label="match", score_id="n%d" % k, performance_id="n%d" % k) for k in range(7)],
+    controls=[], ppq=480, mpq=500000, pclock=None, legs=[])
+
+
+def unprefixed_load(case, obs, workdir):
+    """the written file with the older numeric performed-note ids (note(12,..) instead of note(n12,..), as in the
+    fixture of format 4.0): loading it must give the same alignment and performance (ids are 'n'-prefixed on load)"""
+    import re
+    from partitura.io.importmatch import load_match
+
+    lines = [re.sub(r"-note\(n(\d+),", r"-note(\1,", ln) for ln in obs["text_lines"]]
+    if lines == obs["text_lines"]:
+        return None
+    path = os.path.join(workdir, "unprefixed.match")
+    with open(path, "w") as f:
+        f.write("\n".join(lines) + "\n")
+    o2 = dict(status="ok")
+    try:
+        with warnings.catch_warnings():
+            warnings.simplefilter("ignore")
+            perf, al2, scr = load_match(path, create_score=True)
+            o2["alignment"] = [dict((k, v) for k, v in a.items() if isinstance(v, (str, int))) for a in al2]
+            o2["perf"] = observe_perf(perf[0])
+    except Exception as e:
+        return [("load_error", "loading the file with numeric performed-note ids raises %s: %s" % (type(e).__name__, str(e)[:200]))], lines
+    return [(cl, "file with numeric performed-note ids: " + m) for cl, m in oracle(case, o2, score=False)], lines
+
+
 def sub_case(case, keep_ids):
     keep = set(keep_ids)
     c = dict(case)
@@ -994,11 +1060,24 @@ def run_guarded(case, workdir, name="case", seconds=60):
         signal.signal(signal.SIGALRM, old)
 
 
+def in_domain(c):
+    """the assumptions on the score the generator guarantees: a note onset in every measure (only note lines carry
+    measure numbers), a pickup measure starts with a note"""
+    b = c["bounds"]
+    ons = sorted(n["on"] for n in c["notes"])
+    import bisect
+    for mi in range(len(b) - 1):
+        k = bisect.bisect_left(ons, b[mi])
+        if k >= len(ons) or ons[k] >= b[mi + 1]:
+            return False
+    return not c["pickup"] or ons[0] == b[0]
+
+
 def shrink(case, clause, workdir):
     ids = [n["id"] for n in case["notes"]]
 
     def fails_case(c):
-        if not c["notes"]:
+        if not c["notes"] or not in_domain(c):
             return False
         try:
             b, _ = run_guarded(c, workdir, "shrink", 20)
@@ -1106,6 +1185,9 @@ def fixture_resave(fn, path, clocks, workdir, want_terms=True):
         if obs["status"] == "ok":
             n1 = sorted(n.id for n in scr[0].notes_tied)
             n2 = obs["score_ids"]
+            stray = [a for a in obs["alignment"] if a.get("score_id") is not None and a["score_id"] not in set(n2)]
+            if stray:
+                bad.append(("alignment_ids", "alignment entries name score notes that are not in the loaded score: %s" % stray[:3]))
             if n1 != n2:
                 bad.append(("score_lost", "score note ids differ after saving again: lost %s, extra %s" % (
                     [x for x in n1 if x not in n2][:3], [x for x in n2 if x not in n1][:3])))
@@ -1160,11 +1242,19 @@ def run(ctx):
                        "alignment: every score note (chain head) appears once as match or deletion, every performed note once as match, insertion or ornament",
                        "stored note_on_tick/note_off_tick of a performed note describe the clock the performance was loaded with; the seconds are the data (the property asks for the seconds rounded to the nearest tick of the clock of the file being written)"]
     ctx.matchers["C08-K1"] = k1_matcher
+    ctx.matchers["C08-K2"] = k2_matcher
     ok, why = ctx.coq_props(expect_min=29)
     quick = ctx.tier == "quick"
-    ncases = 280 if quick else 4000
+    ncases = 240 if quick else 3000
     work = ctx.work
     n_viol = 0
+    # the boundary of the domain (known finding C08-K2): a duration above the line codec's bound
+    bad, chain = run_guarded(K2_CASE, work, "k2")
+    ctx.evaluations += 1
+    ctx.count("corpus:K2_long_duration")
+    if bad:
+        ctx.violation("C08 %s: %s" % (bad[0][1], bad[0][2]),
+                      dict(case=K2_CASE, status=chain[bad[0][0] - 1][1]["status"], clause=bad[0][1], message=bad[0][2], all=[b[2] for b in bad[:6]]))
     exp_terms, imp_terms, pf_terms, pd_terms, rd_terms, al_terms = [], [], [], [], [], []
     exp_cases, imp_cases, pf_cases, pd_cases, rd_labels = [], [], [], [], []
     skipped = 0
@@ -1227,8 +1317,18 @@ def run(ctx):
             if t is not None:
                 pd_terms.append(t)
                 pd_cases.append(case)
+        if i % 4 == 1:  # the older numeric performed-note ids
+            c_last, o_last = chain[-1]
+            r = unprefixed_load(c_last, o_last, work)
+            if r is not None:
+                ctx.evaluations += 1
+                ctx.count("numeric_pid_files")
+                for cl, msg in r[0][:1]:
+                    if n_viol < 8:
+                        ctx.violation("C08 %s: %s" % (cl, msg), dict(clause="reader", message=msg, file_text=r[1]))
+                        n_viol += 1
         # O4 on the written file and on a stressed copy
-        if i % (3 if quick else 6) == 0:
+        if i % (4 if quick else 6) == 0:
             path = os.path.join(work, "s%d.match" % i)
             text_lines = chain[-1][1]["text_lines"] if i % 2 else obs["text_lines"]
             with open(path, "w") as f:
